@@ -6,7 +6,7 @@ seeded/*/meta.json `detected_by`.   usage: tools/selftest.py [--all-properties] 
 import os, sys, json, subprocess, shutil, re, glob
 V = os.path.dirname(os.path.dirname(os.path.abspath(__file__)))
 S = "/tmp/tv-selftest"
-DEFECTS = {"D1": "C01", "D2": "C02", "D3": "C03", "D4": "C12", "D5": "C13"}
+DEFECTS = {"D1": "C01", "D2": "C02", "D3": "C03", "D4": "C12", "D5": "C13", "D7": "C06", "D8": "C06"}
 allp = "--all-properties" in sys.argv
 ids = [a for a in sys.argv[1:] if not a.startswith("--")]
 items = []
@@ -37,7 +37,8 @@ for mid, patch, prop, metap in items:
         keys = []
         if os.path.exists(f"{S}/ev/{p}.json"):
             ev = json.load(open(f"{S}/ev/{p}.json"))
-            keys = [s["key"] for s in ev["coverage"]["samples"] if s["verdict"] == "VIOLATION"]
+            known = {k["key"] for k in json.load(open(os.path.join(V, "known_findings.json"))) if k.get("status") == "known"}
+            keys = [s["key"] for s in ev["coverage"]["samples"] if s["verdict"] == "VIOLATION" and s["key"] not in known]
         det[p] = {"rc": r.returncode, "violations": keys}
     caught = det[prop]["rc"] == 1 and bool(det[prop]["violations"])
     results[mid] = {"property": prop, "caught_by_its_property_check": caught, "detections": {p: d["violations"] for p, d in det.items() if d["violations"]},
